@@ -10,4 +10,5 @@ CONSTANTS
   Direct = TRUE
   MidCrash = TRUE
   Timeouts = TRUE
+  MaxWriteFaults = 2
 INVARIANT ContainerOK
